@@ -1470,6 +1470,7 @@ int ov_pcm_seek_page(OggVorbis_File *vf,ogg_int64_t pos){
     ogg_int64_t target=pos-total+begintime;
     ogg_int64_t best=-1;
     int         got_page=0;
+    ogg_int64_t og_offset=-1; /* where the page held in og came from */
 
     ogg_page og;
 
@@ -1528,6 +1529,7 @@ int ov_pcm_seek_page(OggVorbis_File *vf,ogg_int64_t pos){
         }else{
           ogg_int64_t granulepos;
           got_page=1;
+          og_offset=result;
 
           /* got a page. analyze it */
           /* only consider pages from primary vorbis stream */
@@ -1594,9 +1596,19 @@ int ov_pcm_seek_page(OggVorbis_File *vf,ogg_int64_t pos){
          begin == vf->dataoffsets[link] &&
          ogg_page_serialno(&og)==vf->serialnos[link]){
 
-        /* Yes, this is the beginning-of-stream case. We already have
-           our page, right at the beginning of PCM data.  Set state
-           and return. */
+        /* Yes, this is the beginning-of-stream case. */
+
+        /* The scan above passes over pages without a granule position
+           (a first packet longer than a page) and pages of other
+           streams, so the page we hold need not be the first one;
+           dropping the earlier ones would lose the first packet while
+           the position claims the start of the link.  Let raw seek
+           sort that out. */
+        if(og_offset!=vf->dataoffsets[link])
+          return ov_raw_seek(vf,vf->dataoffsets[link]);
+
+        /* We already have our page, right at the beginning of PCM
+           data.  Set state and return. */
 
         vf->pcm_offset=total;
 
